@@ -125,7 +125,7 @@ namespace adm {
   }
   void PositionInteractionRange::unset(
       detail::ParameterTraits<DistanceInteractionMax>::tag) {
-    distanceMin_ = boost::none;
+    distanceMax_ = boost::none;
   }
 
   // ---- CARTESIAN POSITION ---- //
